@@ -153,6 +153,7 @@ package ociunify
 //@   requires i == 0 || i == 1
 //@ func (*unifiedBlobWriter).Write
 //@   private w
+//@   ensures[callers-buffer-untouched] untouched(buf) && string(buf) == old(string(buf))
 //@   ensures[written-to-both-or-failed] result.1 == nil ==> result.0 == len(buf) && w.size == old(w.size) + len(buf) &&
 //@     calls == [w.w[0].Write(buf), w.w[1].Write(buf)] && calls[0].result.1 == nil && calls[1].result.1 == nil
 //@   ensures[failure-is-reported] result.1 != nil ==> result.0 == 0 && w.size == old(w.size)
